@@ -4,6 +4,10 @@ CHECKS = {
             "real": ["src/tbb scheduler: arena, arena_slot, mailbox, task_stream, task_dispatcher, threading_control, market, private_server (RML), task_group, parallel_for, partitioners"]},
     "C09": {"scenarios": ["c09"], "quick_budget_s": 45, "thorough_budget_s": 600,
             "real": ["include/oneapi/tbb/concurrent_queue.h, detail/_concurrent_queue_base.h, src/tbb/concurrent_bounded_queue.cpp, concurrent_monitor"]},
+    "C02": {"scenarios": ["c02"], "quick_budget_s": 50, "thorough_budget_s": 900,
+            "real": ["src/tbb/concurrent_monitor.h, concurrent_monitor_mutex.h, semaphore.h (futex path), arena.h advertise_new_work / out_of_work, thread_request_serializer, private_server wake-up, task_arena::execute exit monitor, task_stream"],
+            "assumptions": ["store-buffer (TSO) delays are modelled for atomics inside registered regions only: the monitor under test, the arena block (hook) and harness flags; plain stores are not buffered, so a fence that only orders mutex-protected plain writes cannot be judged",
+                            "blocked bounded-queue and mutex sleepers are covered by the C09 and C08 checks"]},
     "C03": {"scenarios": ["c03"], "quick_budget_s": 50, "thorough_budget_s": 900,
             "real": ["exception paths of task_dispatcher, task_group_context, start_for/start_reduce/for_each/invoke/pipeline tasks, task_group, task_arena::execute delegation, flow graph function_node"]},
     "C04": {"scenarios": ["c04"], "quick_budget_s": 50, "thorough_budget_s": 900,
@@ -66,6 +70,9 @@ ASSUMPTIONS = [
 NOT_APPLICABLE = {}
 
 MANIFEST_TEXT = {
+    "C02": {"level": "Seeded search over schedules, spurious futex wake-ups, wake-order choices, thread-start failures, clock jumps and x86-TSO store-buffer delays of (a) sleeper/notifier programs on the real concurrent_monitor (prepare/re-check/commit vs state-change/notify_all/notify(predicate)) and (b) whole-runtime programs in which enqueued work must run although its submitter never calls a TBB wait: arenas of every small shape, several arenas competing for workers, max_allowed_parallelism=1 (mandatory worker), execute() on saturated arenas (exit monitor), bursts separated by idle phases; "
+                     "verdict = the simulator's deadlock / permanent-livelock criterion under a fair scheduler (no timing assumption) plus predicate-true-on-return checks. Sensitivity shown by removing the seq_cst fence of notify_all/notify: 12 deadlocks in 176k runs.",
+            "note": "liveness is judged as 'no state-changing step possible any more', never as a step budget; fences that are redundant on x86 (followed by a locked instruction) cannot and need not be detected."},
     "C19": {"level": "Seeded search over schedules (incl. x86-TSO delays on the once flag) of 2-6 callers of collaborative_call_once (some from inside task arenas / task_group tasks so that late arrivals help with the winner's nested parallel_for; attempts that throw chosen by a mask) and of 2-8 threads making first accesses to enumerable_thread_specific (both key-usage types) / combinable while the internal table doubles, with threads exiting and new threads arriving; "
                      "oracle: exactly one successful execution, every normal return after it and seeing its write, each exception to exactly one caller, flag callable again; one element per thread from exactly one initialiser call, stable address, no sharing, local(exists) truthful, iteration / combine_each / combine visit each element once.",
             "note": "thread identity is the simulated thread id; element counts <= 12 per run."},
